@@ -222,14 +222,16 @@ class ExprMixin:
     def e_BoolOp(self, node, st):
         # short circuit: later operands are evaluated under the guard of earlier ones
         is_and = isinstance(node.op, ast.And)
-        n0 = len(st.pc)
+        n0 = len(st.guards)
         terms = []
         for e in node.values:
             v = self.eval(e, st)
             t = truth(v)
             terms.append(t)
-            st.pc.append(t if is_and else z3.Not(t))
-        del st.pc[n0:]
+            if (is_and and is_false(t)) or (not is_and and is_true(t)):
+                break  # python would not evaluate the remaining operands
+            st.guards.append(t if is_and else z3.Not(t))
+        del st.guards[n0:]
         return Sc("bool", z3.And(*terms) if is_and else z3.Or(*terms))
 
     def e_IfExp(self, node, st):
@@ -238,12 +240,12 @@ class ExprMixin:
             return self.eval(node.body, st)
         if is_false(c):
             return self.eval(node.orelse, st)
-        st.pc.append(c)
+        st.guards.append(c)
         a = self.eval(node.body, st)
-        st.pc.pop()
-        st.pc.append(z3.Not(c))
+        st.guards.pop()
+        st.guards.append(z3.Not(c))
         b = self.eval(node.orelse, st)
-        st.pc.pop()
+        st.guards.pop()
         return self.merge_vals(c, a, b, node)
 
     def merge_vals(self, c, a, b, node=None):
@@ -272,7 +274,13 @@ class ExprMixin:
                 self.oblige(st, "div", node, y != 0, "integer true division by zero")
             elif not self.spec and self.fsafe:
                 self.oblige(st, "fsafe", node, y != 0, "float division by zero")
-            return Sc("real", x / y)
+            r = x / y
+            if not z3.is_rational_value(z3.simplify(y)):
+                # consequences of real division the solver does not find by itself (nonlinear)
+                st.assume(z3.Implies(z3.And(y != 0, x == 0), r == 0))
+                st.assume(z3.Implies(z3.And(y > 0, x >= 0), r >= 0))
+                st.assume(z3.Implies(z3.And(y > 0, x > 0), r > 0))
+            return Sc("real", r)
         if isinstance(op, ast.Pow):
             return self.power(a, b, node, st)
         real = a.kind == "real" or b.kind == "real"
@@ -371,7 +379,17 @@ class ExprMixin:
             if not self.spec and self.fsafe and isinstance(op, ast.Div):
                 if isinstance(b, Sc):
                     self.oblige(st, "fsafe", node, to_real(b) != 0, "array divided by zero scalar")
-            return self.elementwise(st, node, f, [a, b], rk)
+            res = self.elementwise(st, node, f, [a, b], rk)
+            if isinstance(op, ast.Div) and isinstance(b, Sc) and a_arr:
+                y = to_real(b)
+                k = fresh("k", INT)
+                ra = st.obj(res).a
+                ea = self.read_elem(st, a, k)
+                ea = z3.ToReal(ea) if ka == "int" else ea
+                n = self.length_of(st, a)
+                st.assume(qall([k], z3.Implies(z3.And(k >= 0, k < n, y != 0, ea == 0), z3.Select(ra, k) == 0), pats=[z3.Select(ra, k)]))
+                st.assume(qall([k], z3.Implies(z3.And(k >= 0, k < n, y > 0, ea >= 0), z3.Select(ra, k) >= 0), pats=[z3.Select(ra, k)]))
+            return res
         if isinstance(op, ast.Add) and isinstance(a, Tup) and isinstance(b, Tup):
             return Tup(a.items + b.items)
         if isinstance(op, ast.Add) and isinstance(a, StrC) and isinstance(b, StrC):
@@ -451,7 +469,7 @@ class ExprMixin:
     def e_Compare(self, node, st):
         left = self.eval(node.left, st)
         terms = []
-        n0 = len(st.pc)
+        n0 = len(st.guards)
         res = None
         for op, rn in zip(node.ops, node.comparators):
             right = self.eval(rn, st)
@@ -459,9 +477,9 @@ class ExprMixin:
             if len(node.ops) == 1:
                 return v
             terms.append(v.t)
-            st.pc.append(v.t)
+            st.guards.append(v.t)
             left = right
-        del st.pc[n0:]
+        del st.guards[n0:]
         return Sc("bool", z3.And(*terms))
 
     def key_term(self, st, o, kv, node):
